@@ -454,7 +454,8 @@ func dump(c MergeCase) string {
 // ---------------------------------------------------------------- generator
 
 var hostile = []string{"", "v", "a=b", "http://h/?a=1&b=2", "x==y=", " spaced value ", "it's", "say \"hi\"", "#notcomment", "a: b", "-dash", "=lead", "été", "1", "true", "null", "[x]", "{y}", "tab\there", "back\\slash"}
-var envKeys = []string{"A", "B", "URL", "PATH_X", "opt_1"}
+// names that are prefixes / case variants of each other: a merge keyed by anything but the exact name shows
+var envKeys = []string{"A", "AB", "A_B", "a", "B", "URL", "URL_2", "PATH", "PATH_X", "opt_1"}
 var strVals = []string{"alpha", "beta gamma", "/abs/dir", "rel/dir", "sub", "echo 'q'", "x=y", "z#1"}
 
 func genFrag(t *rapid.T, name string, earlier []string, later bool) PFrag {
@@ -482,7 +483,7 @@ func genFrag(t *rapid.T, name string, earlier []string, later bool) PFrag {
 		}
 	}
 	if pbt.Pct(t, 55) {
-		n := pbt.Range(t, 1, 3)
+		n := pbt.Range(t, 1, 4)
 		used := map[string]bool{}
 		for i := 0; i < n; i++ {
 			k := pbt.Pick(t, envKeys)
@@ -505,7 +506,7 @@ func genFrag(t *rapid.T, name string, earlier []string, later bool) PFrag {
 
 func genMerge(t *rapid.T) MergeCase {
 	nf := pbt.Range(t, 2, 4)
-	universe := []string{"p0", "p1", "p2", "p3", "p4"}
+	universe := []string{"p0", "p1", "p2", "p3", "p10"}
 	defined := map[string]bool{}
 	var c MergeCase
 	for i := 0; i < nf; i++ {
@@ -515,7 +516,7 @@ func genMerge(t *rapid.T) MergeCase {
 		}
 		if pbt.Pct(t, 35) {
 			used := map[string]bool{}
-			for k := 0; k < pbt.Range(t, 1, 3); k++ {
+			for k := 0; k < pbt.Range(t, 1, 4); k++ {
 				key := pbt.Pick(t, envKeys)
 				if !used[key] {
 					used[key] = true
